@@ -1209,6 +1209,10 @@ func (p Patch) copy(doc *container, op Operation, accumulatedCopySize *int64, op
 
 // Equal indicates if 2 JSON documents have the same structural equality.
 func Equal(a, b []byte) bool {
+	if !json.Valid(a) || !json.Valid(b) {
+		return false
+	}
+
 	la := newLazyNode(newRawMessage(a))
 	lb := newLazyNode(newRawMessage(b))
 
